@@ -62,6 +62,14 @@ mod types;
 #[cfg(test)]
 mod tests;
 
+#[cfg(litep2p_verif)]
+#[path = "../../verif/c11.rs"]
+pub(crate) mod verif_c11;
+
+#[cfg(litep2p_verif)]
+#[path = "../../verif/c12.rs"]
+pub(crate) mod verif_c12;
+
 /// Logging target for the file.
 const LOG_TARGET: &str = "litep2p::notification";
 
